@@ -14,8 +14,11 @@ Trace_RelayServer.tla (every status / peer-gone frame and every answer of Client
 explained by a Register / Unregister / NotifyGone of the spec).
 
 Mutation self-test (recorded 2026-09-22): `unregister` promoting the *first* inactive connection
-(`state.inactive.remove(0)` instead of `pop()`) -> VIOLATION (status frame `healthy` arrives at a1
-instead of a2 after connect a1,a2,a3, close a3); undone -> exit 0.
+(`state.inactive.remove(0)` instead of `pop()`) -> `VIOLATION property=C06` (mode A, e.g. connect a1, a2,
+a3, close a1, close a2, disconnect a3: the registry state / status frames differ from every TLC outcome;
+mode B additionally sees a datagram arriving at a connection the spec has as inactive); undone -> exit 0.
+(Mutations are applied to a private copy of /repo and /verif under /var/tmp, built with a trimmed copy of
+the harness crate, so that the shared /repo is never left mutated while others build against it.)
 """
 import json
 
@@ -83,12 +86,15 @@ def run(ctx):
     # (measured: reg3 without frames 13 512 states; fwd with one frame 24 212; reg3 with one frame 260 979;
     #  reg = a1,a2,a3,b1 without frames 402 051)
     ctx.tlc("relay", "MC_RelayServer", cfg="MC_RelayServer_reg3.cfg", timeout=ctx.pick(900, 3000),
-            constants={"PktCap": 1, "MsgCap": 1, "MaxFrames": ctx.pick(0, 1)},
+            constants={"PktCap": 1, "MsgCap": 1, "MaxFrames": 0},
             require_actions=["Register", "Unregister", "Disconnect", "DisconnectKey", "Close", "TakeMsg"])
     ctx.tlc("relay", "MC_RelayServer", cfg="MC_RelayServer_fwd.cfg", timeout=ctx.pick(900, 3000),
             constants={"PktCap": 1, "MsgCap": 1, "MaxFrames": 1, "Classes": '{"normal"}', "FixUndeliverable": "TRUE"},
             require_actions=["Register", "Unregister", "NotifyGone", "ClientFrame", "Close", "TakeMsg"])
     if not ctx.quick:
+        ctx.tlc("relay", "MC_RelayServer", cfg="MC_RelayServer_reg3f.cfg", timeout=3000,
+                constants={"PktCap": 1, "MsgCap": 1, "MaxFrames": 1},
+                require_actions=["Register", "Unregister", "Disconnect", "DisconnectKey", "Close", "TakeMsg", "NotifyGone"])
         ctx.tlc("relay", "MC_RelayServer", cfg="MC_RelayServer_reg.cfg", timeout=3000,
                 constants={"PktCap": 1, "MsgCap": 1, "MaxFrames": 0},
                 require_actions=["Register", "Unregister", "Disconnect", "DisconnectKey", "Close", "TakeMsg"])
@@ -107,7 +113,9 @@ def run(ctx):
         if missing:
             raise rc.ToolError("vacuity: generator never used calls %s" % missing)
         obs = rc.execute(ctx, "c06-%s" % pre, scen, CONNS, 2)
-        rc.judge(ctx, "C06", scen, obs, describe)
+        bad = rc.judge(ctx, "C06", scen, obs, describe)
+        if not ctx.quick and not bad:
+            rc.binding_selftest(ctx, "C06", scen, obs)
         for g, o in zip(scen, obs):
             ops_ = [s["op"] for s in g["steps"]]
             if ops_.count("connect") >= 3 and ("close" in ops_ or "disconnect" in ops_):
@@ -118,6 +126,8 @@ def run(ctx):
     evs, res, kinds = rc.random_traces(ctx, "C06", ctx.pick(8, 60), ctx.pick(60, 120), seed_offset=1000)
     if res.ok and kinds.get("recv-same", 0) + kinds.get("recv-healthy", 0) + kinds.get("recv-gone", 0) == 0:
         raise rc.ToolError("vacuity: no status / peer-gone frame was delivered in the random runs")
+    if not ctx.quick and res.ok:
+        rc.trace_selftest(ctx, "C06", evs)
     ctx.cov["rule"] = ("every maximal call sequence of the generator instance up to MaxSteps (exhaustive); non-trivial when it "
                        "contains a frame, a close or a disconnect")
     ctx.cov["exhaustive"] = True
